@@ -8,6 +8,7 @@ import os
 import re
 import shutil
 import subprocess
+import threading
 import time
 
 VERIF = os.path.dirname(os.path.dirname(os.path.abspath(__file__)))
@@ -75,7 +76,13 @@ def run(module, cfg, workdir, workers=16, timeout=1800, simulate=None, depth=Non
         env=None, coverage=True, expect_violation=False, deadlock=False, heap="8g", dfid=None, extra=()):
     """Run TLC on spec/<module>.tla with config file cfg (absolute path or name under spec/)."""
     os.makedirs(workdir, exist_ok=True)
-    meta = os.path.join(workdir, "meta_%s_%d" % (module, int(time.time() * 1000) % 100000000))
+    # TLC's state queue / fingerprint files are pure scratch: keep them in memory when possible (disk I/O dominated otherwise)
+    shm = "/dev/shm"
+    metaroot = workdir
+    if False and os.path.isdir(shm) and os.access(shm, os.W_OK):
+        metaroot = os.path.join(shm, "verif_tlc_%d" % os.getpid())
+        os.makedirs(metaroot, exist_ok=True)
+    meta = os.path.join(metaroot, "meta_%s_%d_%d" % (module, int(time.time() * 1000) % 100000000, threading.get_ident() % 100000))
     if not os.path.isabs(cfg):
         cfg = os.path.join(SPEC, cfg)
     cmd = ["java", "-XX:+UseParallelGC", "-Xmx" + heap, "-cp", JAR, "tlc2.TLC",
